@@ -64,6 +64,12 @@ func (sb *SelBase) Column() int {
 // then a new context is created by calling the New function on the Nester
 // with the current field.
 func (sb *SelBase) SetContextRecursive(ctx interface{}) {
+	sb.setContextRecursive(ctx, map[*Fragment]bool{})
+}
+
+// The active map holds the fragments currently being walked so that
+// fragments that refer to each other do not recurse without end.
+func (sb *SelBase) setContextRecursive(ctx interface{}, active map[*Fragment]bool) {
 	for _, sel := range sb.Sels {
 		switch ts := sel.(type) {
 		case *Field:
@@ -71,11 +77,15 @@ func (sb *SelBase) SetContextRecursive(ctx interface{}) {
 				ctx = n.Nest(ts)
 			}
 			ts.Context = ctx
-			ts.SetContextRecursive(ts.Context)
+			ts.setContextRecursive(ts.Context, active)
 		case *Inline:
-			ts.SetContextRecursive(ctx)
+			ts.setContextRecursive(ctx, active)
 		case *FragRef:
-			ts.Fragment.SetContextRecursive(ctx)
+			if ts.Fragment != nil && !active[ts.Fragment] {
+				active[ts.Fragment] = true
+				ts.Fragment.setContextRecursive(ctx, active)
+				delete(active, ts.Fragment)
+			}
 		}
 	}
 }
